@@ -746,6 +746,8 @@ def _remap_input(
                     )
                     for x in v
                 }
+            else:
+                corrected_input[k] = set(v)
         else:
             corrected_input[k] = v
     return corrected_input
